@@ -102,6 +102,10 @@ macro_rules! k_c13_step {
 }
 k_c13_step!(k_c13_step_u8_u16_p4, u8, u16, u8, 4);
 k_c13_step!(k_c13_step_u8_u16_p8, u8, u16, u8, 8);
+k_c13_step!(k_c13_step_u8_u16_p3, u8, u16, u8, 3);
+k_c13_step!(k_c13_step_u8_u16_p7, u8, u16, u8, 7);
+k_c13_step!(k_c13_step_u16_u32_p9, u16, u32, u16, 9);
+k_c13_step!(k_c13_step_u32_u64_p17, u32, u64, u32, 17);
 k_c13_step!(k_c13_step_u8_u32_p8, u8, u32, u8, 8);
 k_c13_step!(k_c13_step_u16_u32_p12, u16, u32, u16, 12);
 k_c13_step!(k_c13_step_u16_u32_p16, u16, u32, u16, 16);
@@ -293,6 +297,8 @@ k_c13_rt!(k_c13_rt_k1_u8_u32_p8, u8, u32, u8, 8, 1, 6);
 k_c13_rt!(k_c13_rt_k1_u16_u32_p12, u16, u32, u16, 12, 1, 4);
 k_c13_rt!(k_c13_rt_k1_u32_u64_p24, u32, u64, u32, 24, 1, 4);
 k_c13_rt!(k_c13_rt_k2_u8_u16_p4, u8, u16, u8, 4, 2, 4);
+k_c13_rt!(k_c13_rt_k2_u8_u16_p3, u8, u16, u8, 3, 2, 4);
+k_c13_rt!(k_c13_rt_k3_u8_u16_p3, u8, u16, u8, 3, 3, 4);
 k_c13_rt!(k_c13_rt_k2_u8_u16_p8, u8, u16, u8, 8, 2, 5);
 k_c13_rt!(k_c13_rt_k2_u16_u32_p12, u16, u32, u16, 12, 2, 4);
 k_c13_rt!(k_c13_rt_k2_u32_u64_p24, u32, u64, u32, 24, 2, 4);
